@@ -632,6 +632,9 @@ pub fn gen_c05(seed: u64, thorough: bool, only: Option<u64>, out: &mut Out) {
       let t = if gi == 0 && k == 0 { 1 } else { t };
       let m = { let l_ = *r.pick(&[0usize, 1, 4, 32, 170]); r.bytes(l_) };
       let coins = { let l_ = *r.pick(&[0usize, 4, 32]); r.bytes(l_) };
+      // group 0: a non-empty threshold-1 sharing (witness of t1-share-point); group 1: an empty sharing
+      // (witness of empty-sharing); elsewhere whatever the stream gives
+      let (m, coins) = if gi == 0 && k == 0 && m.is_empty() { (vec![7u8; 4], coins) } else if gi == 1 && k == 0 { (vec![], vec![]) } else { (m, coins) };
       let c = adss::Commune::new(t, m.clone(), coins, None);
       let n = t as usize + 1 + (k == 0) as usize;
       let sh: Vec<Vec<u8>> = (0..n).filter_map(|_| c.clone().share().ok().map(|s| s.to_bytes())).collect();
